@@ -2,7 +2,7 @@
 from engine import query as Q
 from . import common
 from engine.terms import show, subterms
-from engine.guards import Atom, Walker, field_path, chain, Inliner
+from engine.guards import Atom, Walker, field_path, chain, Inliner, some_payload
 from .phase_gate import SM, sign_blocks, CHONKY_MSG
 from .c03 import bft_bodies, root_fn
 
@@ -81,7 +81,15 @@ def rule_commit_path(ctx):
         d = dict(agg[3])
         j, p = d.get("justification"), d.get("payload")
         okj = j is not None and common.is_p(j, common.pnames(f, "CommitQC"))
-        gets = [x for x in subterms(p) if x[0] == "call" and x[1].endswith(("HashMap::get", "BTreeMap::get"))]
+        # lookups may sit inside `.and_then(|cache| cache.get(..))` / `.map(..)`: expand those closures
+        terms = [p]
+        inl_ = Inliner(ctx)
+        for x in subterms(p):
+            if x[0] == "call" and x[1] in ("std::option::Option::and_then", "std::option::Option::map") and len(x[2]) == 2 and x[2][1][0] == "closure":
+                body = inl_.inline_closure(x[2][1], [some_payload(x[2][0])])
+                if body is not None:
+                    terms.append(body)
+        gets = [x for t_ in terms for x in subterms(t_) if x[0] == "call" and x[1].endswith(("HashMap::get", "BTreeMap::get"))]
         okp = len(gets) >= 2 and any(chain(g[2][1])[1][-2:] == ["header()", "payload"] for g in gets) and any(chain(g[2][1])[1][-2:] == ["header()", "number"] for g in gets) and \
             any(chain(g[2][0])[1][-1:] == ["block_proposal_cache"] for g in gets)
         ok = okj and okp
